@@ -5,9 +5,11 @@ package sim
 import (
 	"bytes"
 	"encoding/json"
+	"errors"
 	"fmt"
 	"os"
 	"strings"
+	"syscall"
 	"testing"
 	"time"
 )
@@ -45,6 +47,11 @@ func init() {
 			}
 			p.Table = GenTable(r.Sub("data"), GenOpts{MaxRows: 700, AllowNoPK: true, UniqueKeys: true, BigCells: r.Chance(0.1), SimpleOnly: p.Kind == "cli"})
 			p.A, p.B = genPresentation(r.Sub("a")), genPresentation(r.Sub("b"))
+			if p.Kind == "lib" && r.Chance(0.15) {
+				// presentation B spills and meets a full disk part-way: an error, or the same identifier
+				p.B.Cfg.RunSize = Pick(r, []uint64{1, 64, 512, 4096})
+				p.B.Cfg.FsizeLimit = Pick(r, []uint64{1, 7, 60, 300, 1000, 4000, 20000})
+			}
 			p.Mutation = Pick(r, []string{"cell", "cell", "colname", "swapcols", "pk", "none"})
 			p.MutRow, p.MutCol = r.Intn(1000), r.Intn(8)
 			p.OldMtime = r.Chance(0.5)
@@ -116,8 +123,18 @@ func execC02(t *testing.T, raw json.RawMessage, res *Result) {
 		return
 	}
 	if rb.Err != nil {
+		if rb.FsizeArmed && isFileTooLarge(rb.Err) {
+			// the disk-full stand-in hit a spill file: refusing the commit is the right answer
+			res.fault("spill_write_error", 1)
+			res.probe("spill_write_error_reported", 1)
+			res.Nontrivial = true
+			return
+		}
 		res.Violate("ingest-error", "B: %v", rb.Err)
 		return
+	}
+	if rb.FsizeArmed {
+		res.probe("fsize_limit_not_reached", 1)
 	}
 	res.stat("sim_steps", float64(ra.Sched.Steps+rb.Sched.Steps))
 	res.hashOf(fmt.Sprintf("sched:%x/%x", ra.Sched.Hash(), rb.Sched.Hash()))
@@ -296,4 +313,8 @@ func execC02CLI(t *testing.T, p *C02Plan, cols, pk []string, rows [][]string, re
 		return
 	}
 	res.Nontrivial = len(rows) >= 3
+}
+
+func isFileTooLarge(err error) bool {
+	return err != nil && (errors.Is(err, syscall.EFBIG) || strings.Contains(err.Error(), "file too large"))
 }
